@@ -287,7 +287,9 @@ Definition pattern_match (src : str) (p : pattern) (c : tree) (e : env) : outcom
 Inductive lenres := LenSome (n : N) | LenNone | LenFuel.
 Definition match_len (src : str) (p : pattern) (c : tree) : lenres :=
   match run (match_fuel (p_node p) c) (p_strict p) src (RNode (p_node p) c) (AEnd 0) with
-  | (ROne MatchedBoth, AEnd n) => LenSome (n - tstart c)
+  | (ROne MatchedBoth, AEnd n) =>
+      (* end.checked_sub(start).filter(|len| *len > 0): nothing aligned => no prefix length *)
+      if N.leb n (tstart c) then LenNone else LenSome (n - tstart c)
   | (RFuel, _) => LenFuel
   | _ => LenNone
   end.
